@@ -179,6 +179,28 @@ theorem C09_deallocIf_exact (P : Params) (hL : P.Legal) (hN2 : 2 ≤ P.N) (p : P
   obtain ⟨hM, hA2⟩ := Legal.multi hL hN2
   exact deallocateIf_ok hM hN2 hA2 h f
 
+/-- **C09 (state, `DeallocateIf` interrupted by its filter).** A filter that throws when it is asked its `(k+1)`-th
+question (`deallocateIfThrow`, the exception-neutral reading of `pvDeleteBlocks`: one block is finished before the next
+question): the call still leaves a well-formed pool whose reported count is exact; the blocks gone are exactly the
+selected ones among the first `k` questions, every question was about a live block, and every `free` was legal. -/
+theorem C09_deallocIf_throw_exact (P : Params) (hL : P.Legal) (hN2 : 2 ≤ P.N) (p : Pool) (h : PoolWF P p)
+    (f : Int → Bool) (k : Nat) :
+    ∃ asked p' evs, deallocateIfThrow P p f k = .ok asked p' evs ∧ PoolWF P p' ∧
+      p'.allocCount = (p'.live P).length ∧
+      (p'.live P).Perm ((p.live P).filter (fun x => !(f x && asked.contains x))) ∧
+      (∀ b ∈ asked, b ∈ p.live P) ∧ asked.length ≤ k ∧
+      LedgerOK P p.store evs p'.store := by
+  obtain ⟨hM, hA2⟩ := Legal.multi hL hN2
+  obtain ⟨tr, p0, e0, h0, _, _, htr, _⟩ := deallocateIf_ok hM hN2 hA2 h (fun _ => false)
+  obtain ⟨tr1, p1, e1, h1, hwf1, hlive1, _, hled1⟩ :=
+    deallocateIf_ok hM hN2 hA2 h (fun b => f b && (tr.take k).contains b)
+  refine ⟨tr.take k, p1, e1, ?_, hwf1, hwf1.count_exact hM hN2, hlive1, ?_, ?_, hled1⟩
+  · unfold deallocateIfThrow
+    rw [h0]; simp only; rw [h1]; rfl
+  · intro b hb
+    exact htr.subset (List.mem_of_mem_take hb)
+  · exact List.length_take_le k tr
+
 /-- **C09 (state, all histories).** Every state reached by a legal history - any sequence of `Allocate`
 (succeeding or refused by the manager), `Deallocate` of live blocks, `DeallocateIf`, `DeallocateAll` and
 `MergeFrom` of pools holding different memory, with a manager that honours its contract - is well formed,
